@@ -215,8 +215,10 @@ def _jpeg_dc_levels(nblocks: int, seed: int) -> list[int]:
     return [(_mix(seed * 0x9E3779B1 + i * 0x27D4EB2F + 0x77) % 121) - 60 for i in range(nblocks)]
 
 
-def jpeg(w: int, h: int, seed: int = 0) -> bytes:
-    """Baseline JFIF, one 8-bit component, every 8x8 block constant (DC coefficient + EOB)."""
+def jpeg(w: int, h: int, seed: int = 0, thumbnail: tuple[int, int] | None = None) -> bytes:
+    """Baseline JFIF, one 8-bit component, every 8x8 block constant (DC coefficient + EOB).
+    thumbnail=(tw, th): an APP1/Exif segment carrying a complete thumbnail JPEG of that size is placed before the frame header
+    (what cameras write); a reader has to skip the segment by its length instead of scanning its payload for markers."""
     _check_dims(w, h)
     bw, bh = (w + 7) // 8, (h + 7) // 8
     dc_tab = _huff_codes(_DC_BITS, _DC_VALS)
@@ -254,6 +256,12 @@ def jpeg(w: int, h: int, seed: int = 0) -> bytes:
 
     out = bytearray(b"\xff\xd8")
     out += _seg(0xE0, b"JFIF\0" + struct.pack(">BBBHHBB", 1, 1, 0, 1, 1, 0, 0))
+    if thumbnail:
+        thumb = jpeg(thumbnail[0], thumbnail[1], seed + 1)
+        # Exif header, little-endian TIFF with an empty IFD0 whose "next IFD" points at IFD1 = {JPEGInterchangeFormat, ...Length}, then the thumbnail
+        tiff = b"II*\x00" + struct.pack("<I", 8) + struct.pack("<H", 0) + struct.pack("<I", 14)
+        tiff += struct.pack("<H", 2) + struct.pack("<HHII", 0x0201, 4, 1, 14 + 2 + 24 + 4) + struct.pack("<HHII", 0x0202, 4, 1, len(thumb)) + struct.pack("<I", 0)
+        out += _seg(0xE1, b"Exif\0\0" + tiff + thumb)
     out += _seg(0xDB, b"\x00" + bytes(_QLUM[_ZIGZAG[i]] for i in range(64)))
     out += _seg(0xC0, struct.pack(">BHHB", 8, h, w, 1) + bytes((1, 0x11, 0)))
     out += _seg(0xC4, b"\x00" + bytes(_DC_BITS) + bytes(_DC_VALS))
